@@ -121,6 +121,11 @@ def run(ctx):
             add({"chunks": some, "nodata": True}, "data-file-deleted", size=size)
             add({"chunks": allc, "short": max(1, size // 2)}, "data-file-shortened", size=size)
             add({"chunks": allc, "garbage": True, "foreign_chunk": 16}, "foreign-chunk-size", size=size)
+            # another chunk size that happens to give the same number of chunks for this file
+            same = [c for c in (31, 33, 30, 34, 29, 36, 28, 40, 27) if (size + c - 1) // c == total]
+            if same:
+                add({"chunks": allc, "garbage": True, "foreign_chunk": same[0]}, "foreign-chunk-size-same-count", size=size)
+                add({"chunks": some, "garbage": True, "foreign_chunk": same[-1]}, "foreign-chunk-size-same-count", size=size)
             add({"chunks": allc, "garbage": True, "foreign_size": size + 1}, "foreign-file-size", size=size)
             add({"chunks": allc, "garbage": True, "foreign_id": "someone-else"}, "foreign-id", size=size)
             add({"chunks": allc, "garbage": True, "flip_bit": 1 + rng.below(8 * 30)}, "sidecar-bit-flip", size=size)
@@ -156,7 +161,7 @@ def run(ctx):
         "rule": "sidecars from the real CreateSidecar/Flush over (chunk in {1,7,32,64,4096}) x (total 0..70, byte-boundary totals) x random bitmaps and ids; EVERY single-bit flip and EVERY truncation of the small ones, "
                 "sampled flips/truncations of the others, trailing bytes, random garbage, magic+version prefixes -> LoadSidecar vs model; identity rule with each field changed; "
                 "resumed end-to-end transfers (netsim and mock, 1-3 streams, both root modes) from: legit partial, highest chunk damaged, all complete + last damaged, data file deleted / shortened, "
-                "foreign chunk size / file size / id, bit-flipped and truncated sidecar (data file full of garbage so that any trusted bit shows)",
+                "foreign chunk size (also one giving the same chunk count) / file size / id, bit-flipped and truncated sidecar (data file full of garbage so that any trusted bit shows)",
         "samples": [ser_cases[0], parse_cases[3][:100], load_cases[1][:120], cases[0]["name"]],
         "accepted_sidecars": accepted, "tamper_kinds": kinds, "tamper_runs_mutual_success": n_ok,
         "disagreements_model_vs_impl": len(d0) + len(d1) + len(d2),
